@@ -37,6 +37,12 @@ def catalogue():
                 add('FunctionPolynomial(%s,%d)' % (cf, deg), D, lambda cf=cf, deg=deg: F.FunctionPolynomial(cf, degree=deg), kind='poly', coef=cf, deg=deg)
     add('Polynomial1d([1,-2,3])', 1, lambda: F.Polynomial1d([1, -2, 3]))
     add('FunctionCompose(2*Linear - Poly)', 2, lambda: F.FunctionCompose([(F.FunctionLinear([1, 2]), 2.0), (F.FunctionPolynomial([1, 1]), -1.0)]))
+    # compositions in which a discontinuous component comes FIRST (every component must see the caller's box)
+    add('FunctionCompose(Discont + 2*Linear)', 2, lambda: F.FunctionCompose([(F.GenzDiscontinious([1.0, 2.0], [0.5, 0.5]), 1.0), (F.FunctionLinear([1, 2]), 2.0)]), breaks=[[0.5], [0.5]])
+    add('FunctionCompose(Discont(.3,.7) - Poly + CornerPeak)', 2, lambda: F.FunctionCompose([(F.GenzDiscontinious([1.0, 2.0], [0.3, 0.7]), 1.0), (F.FunctionPolynomial([1, 1]), -1.0),
+                                                                                                (F.GenzCornerPeak([1.0, 2.0]), 3.0)]), breaks=[[0.3], [0.7]])
+    add('FunctionCompose(Discont3 + Linear3)', 3, lambda: F.FunctionCompose([(F.GenzDiscontinious([1.0, 2.0, 1.0], [0.5, 0.5, 0.5]), 1.0), (F.FunctionLinear([1, 2, 3]), 1.0)]),
+        breaks=[[0.5], [0.5], [0.5]])
     add('GenzCornerPeak([1,2])', 2, lambda: F.GenzCornerPeak([1.0, 2.0]))
     add('GenzCornerPeak([.5,1,1.5])', 3, lambda: F.GenzCornerPeak([0.5, 1.0, 1.5]))
     add('GenzProductPeak', 2, lambda: F.GenzProductPeak([2.0, 3.0], [0.5, 0.4]))
@@ -58,6 +64,8 @@ def catalogue():
     add('LambdaFunction(x^2)', 1, lambda: F.LambdaFunction(lambda c: c[0] ** 2, lambda c: c[0] ** 3 / 3.0))
     add('FunctionConcatenate', 2, lambda: F.FunctionConcatenate([F.GenzCornerPeak([1.0, 2.0]), F.FunctionLinear([1, 2])]), integral=False)
     add('FunctionPower', 2, lambda: F.FunctionPower(F.GenzCornerPeak([1.0, 2.0]), 2), integral=False)
+    add('FunctionPower(Concatenate)', 2, lambda: F.FunctionPower(F.FunctionConcatenate([F.GenzCornerPeak([1.0, 2.0]), F.FunctionLinear([1, 2])]), 2), integral=False)
+    add('FunctionPower(CustomFunction array)', 2, lambda: F.FunctionPower(F.CustomFunction(lambda c: np.array([c[0] + 0.5, c[1] ** 2 + 0.25]), output_length=2), 3), integral=False)
     add('FunctionCustom', 2, lambda: F.FunctionCustom(lambda c: c[0] * 2 + c[1]), integral=False)
     add('CustomFunction', 2, lambda: F.CustomFunction(lambda c: [c[0], c[1] ** 2], output_length=2), integral=False)
     add('FunctionUQ2', 2, lambda: F.FunctionUQ2(), integral=False)
@@ -120,6 +128,58 @@ def run_path(entry, path, direct, outlen):
 
 
 OPMAP = {'CallSingle': 'single', 'CallBatch': 'batch', 'EvalVectorized': 'evalv', 'Reset': 'reset', 'Deactivate': 'deact'}
+
+
+def wrapper_interplay(rep):
+    """functions that wrap another function object: evaluating the wrapper must not change what the wrapped object returns
+    (shared cache entries), and the wrapper's own values must stay the same on repetition, with caching on, off and after a reset"""
+    import sparseSpACE.Function as F
+    inners = [('GenzCornerPeak', 2, lambda: F.GenzCornerPeak([1.0, 2.0])), ('FunctionLinear', 2, lambda: F.FunctionLinear([1, 2])),
+              ('FunctionConcatenate', 2, lambda: F.FunctionConcatenate([F.GenzCornerPeak([1.0, 2.0]), F.FunctionLinear([1, 2])])),
+              ('CustomFunction array', 2, lambda: F.CustomFunction(lambda c: np.array([c[0] + 0.5, c[1] ** 2 + 0.25]), output_length=2)),
+              ('GenzGaussian3', 3, lambda: F.GenzGaussian([0.5, 0.4, 0.3], [2.0, 3.0, 1.0]))]
+    wrappers = [('FunctionPower(.,2)', lambda f: F.FunctionPower(f, 2)), ('FunctionShift(.)', lambda f: F.FunctionShift(f, lambda c: [x * 0.5 + 0.1 for x in c])),
+                ('FunctionConcatenate([., .])', lambda f: F.FunctionConcatenate([f, f]))]
+    for iname, D, mk in inners:
+        pts = POINTS[D]
+        direct_inner = [np.atleast_1d(np.asarray(mk().eval(p), dtype=float)) for p in pts]
+        for wname, wrap in wrappers:
+            direct_wrap = [np.atleast_1d(np.asarray(wrap(mk()).eval(p), dtype=float)) for p in pts]
+            for first in ('batch', 'single', 'none'):
+                for wcache in (True, False):
+                    case = {'inner': iname, 'wrapper': wname, 'inner_first_call': first, 'wrapper_caching': wcache}
+                    sig = {'cls': wname.split('(')[0], 'kind': 'wrapper-interplay'}
+                    rep.count(1, key=json.dumps(case))
+                    try:
+                        with impl.quiet(), impl.watchdog(30):
+                            f = mk()
+                            w = wrap(f)
+                            if not wcache:
+                                w.deactivate_caching()
+                            if first == 'batch':
+                                f(list(pts))
+                            elif first == 'single':
+                                for p in pts:
+                                    f(p)
+                            bad = None
+                            for rnd in range(3):
+                                for k, p in enumerate(pts):
+                                    r = np.atleast_1d(np.asarray(w(p), dtype=float))
+                                    if r.shape != direct_wrap[k].shape or not np.allclose(r, direct_wrap[k], rtol=1e-13, atol=0):
+                                        bad = bad or 'wrapper value at %s in round %d: %s, direct evaluation %s' % (p, rnd + 1, r.tolist(), direct_wrap[k].tolist())
+                                    r = np.atleast_1d(np.asarray(f(p), dtype=float))
+                                    if r.shape != direct_inner[k].shape or not np.allclose(r, direct_inner[k], rtol=1e-13, atol=0):
+                                        bad = bad or 'wrapped function at %s after evaluating the wrapper (round %d): %s, direct evaluation %s' % (p, rnd + 1, r.tolist(), direct_inner[k].tolist())
+                                if rnd == 1:
+                                    w.reset_dictionary()
+                    except impl.Timeout:
+                        raise
+                    except Exception as ex:
+                        rep.violation('P_NoException', dict(sig, exception=type(ex).__name__), dict(case, exception=repr(ex)), what='%s raised %r' % (case, ex))
+                        continue
+                    rep.residual('wrapper_interplay_transparent', bad is None)
+                    if bad:
+                        rep.violation('P_Transparent', sig, dict(case, observed=bad), what='%s: %s' % (case, bad))
 
 
 def graph_paths(g):
@@ -295,6 +355,7 @@ def run(tier, seed):
                           what='%s path %s step %d %s' % (tr['cls'], tr['_path'], step, ev.get('_exc', '')))
     check_poly_table(rep, tier)
     check_integrals(rep, tier, rng)
+    wrapper_interplay(rep)
     rep.cov['rule'] = ('cache clause: for every built-in Function class (quick: one parameter set per class) every edge of the TLC graph of FunctionCache.tla '
                        '(shortest path to the source state + the edge) executed on a fresh instance; integral clause: every state of PolyIntegrals.tla '
                        'and a seeded sample of lattice boxes for the transcendental classes; distinct by (class, path) / (class, box)')
